@@ -53,6 +53,7 @@ pub fn run(
         }
 
         let mut best_candidate: Option<(Vec<EdgeTraversal>, Cost)> = None;
+        let n_accepted = accepted.len();
 
         // build alternates off of most recently-picked accepted result
         let prev_accepted_path =
@@ -64,7 +65,7 @@ pub fn run(
                 )))?;
 
         // step through each index along the most recently-accepted path
-        for spur_idx in 0..prev_accepted_path.len() - 2 {
+        for spur_idx in 0..prev_accepted_path.len().saturating_sub(2) {
             #[cfg(feature = "verif_hooks")]
             crate::verif::emit(crate::verif::Event::KspInner {
                 algorithm: "yens",
@@ -145,6 +146,10 @@ pub fn run(
             if let Some((ref best_path, _)) = best_candidate {
                 accepted.push(best_path.clone());
             }
+        }
+        if accepted.len() == n_accepted {
+            // no spur of the latest route produced an alternative: nothing left to build on
+            break;
         }
     }
 
